@@ -8061,3 +8061,130 @@ func ruleEstimatorPrefixes(c *Ctx) {
 	}
 	c.Floor("estimators built on expectedHeaderSizeWithEmptyWitness", nfn, 2)
 }
+
+// ruleDecodedKindChecked (C17): what a stack item decoder returns has the kind the bytes say, not the kind the caller
+// expects. A single-valued type assertion (x.(*stackitem.Array)) on the result of stackitem.Deserialize*,
+// DecodeBinary*, FromJSON* panics when stored or received bytes hold another kind; the two-valued form or a type
+// switch gives an error instead. Every local defined by such a decoder call is asserted only in the checked forms.
+func ruleDecodedKindChecked(c *Ctx) {
+	decoders := map[string]bool{
+		"pkg/vm/stackitem.Deserialize": true, "pkg/vm/stackitem.DeserializeLimited": true,
+		"pkg/vm/stackitem.DecodeBinary": true, "pkg/vm/stackitem.DecodeBinaryProtected": true,
+		"pkg/vm/stackitem.FromJSON": true, "pkg/vm/stackitem.FromJSONWithTypes": true,
+	}
+	ncall, n := 0, 0
+	for _, fd := range c.P.AllFuncDecls() {
+		rel := pkgRel(fd.Pkg.Types)
+		if fd.Decl.Body == nil || !strings.HasPrefix(rel, "pkg/") || strings.HasPrefix(rel, "pkg/neotest") || strings.HasPrefix(rel, "pkg/compiler") || strings.HasPrefix(rel, "pkg/interop") {
+			continue
+		}
+		info := fd.Pkg.TypesInfo
+		decoded := map[types.Object]string{}
+		ast.Inspect(fd.Decl.Body, func(x ast.Node) bool {
+			as, ok := x.(*ast.AssignStmt)
+			if !ok || len(as.Rhs) != 1 {
+				return true
+			}
+			call, ok := ast.Unparen(as.Rhs[0]).(*ast.CallExpr)
+			if !ok {
+				return true
+			}
+			fn := calleeFunc(info, call)
+			if fn == nil || !decoders[FuncKey(fn)] {
+				return true
+			}
+			ncall++
+			if id, ok := as.Lhs[0].(*ast.Ident); ok && id.Name != "_" {
+				decoded[info.ObjectOf(id)] = shortSym(FuncKey(fn))
+			}
+			return true
+		})
+		if len(decoded) == 0 {
+			continue
+		}
+		checked := map[*ast.TypeAssertExpr]bool{}
+		ast.Inspect(fd.Decl.Body, func(x ast.Node) bool {
+			switch y := x.(type) {
+			case *ast.AssignStmt:
+				if len(y.Lhs) == 2 && len(y.Rhs) == 1 {
+					if ta, ok := ast.Unparen(y.Rhs[0]).(*ast.TypeAssertExpr); ok {
+						checked[ta] = true
+					}
+				}
+			case *ast.ValueSpec:
+				if len(y.Names) == 2 && len(y.Values) == 1 {
+					if ta, ok := ast.Unparen(y.Values[0]).(*ast.TypeAssertExpr); ok {
+						checked[ta] = true
+					}
+				}
+			case *ast.TypeSwitchStmt:
+				ast.Inspect(y.Assign, func(z ast.Node) bool {
+					if ta, ok := z.(*ast.TypeAssertExpr); ok {
+						checked[ta] = true
+					}
+					return true
+				})
+			}
+			return true
+		})
+		k := 0
+		ast.Inspect(fd.Decl.Body, func(x ast.Node) bool {
+			ta, ok := x.(*ast.TypeAssertExpr)
+			if !ok || ta.Type == nil {
+				return true
+			}
+			id, ok := ast.Unparen(ta.X).(*ast.Ident)
+			if !ok {
+				return true
+			}
+			dec, isDec := decoded[info.ObjectOf(id)]
+			if !isDec {
+				return true
+			}
+			n++
+			k++
+			key := fmt.Sprintf("%s.assert#%d", shortSym(FuncKey(fd.Obj)), k)
+			// the other idiom of the repository: `if t := x.Type(); t != stackitem.ArrayT { return … }` before it
+			obj := info.ObjectOf(id)
+			ast.Inspect(fd.Decl.Body, func(z ast.Node) bool {
+				is, ok := z.(*ast.IfStmt)
+				if !ok || is.Pos() > ta.Pos() || len(is.Body.List) == 0 {
+					return true
+				}
+				if _, ret := is.Body.List[len(is.Body.List)-1].(*ast.ReturnStmt); !ret {
+					return true
+				}
+				kindTest := false
+				for _, part := range []ast.Node{is.Init, is.Cond} {
+					if part == nil {
+						continue
+					}
+					ast.Inspect(part, func(w ast.Node) bool {
+						if call, ok := w.(*ast.CallExpr); ok {
+							if se, ok := ast.Unparen(call.Fun).(*ast.SelectorExpr); ok && se.Sel.Name == "Type" {
+								if rid, ok := ast.Unparen(se.X).(*ast.Ident); ok && info.ObjectOf(rid) == obj {
+									kindTest = true
+								}
+							}
+						}
+						return true
+					})
+				}
+				if kindTest {
+					checked[ta] = true
+				}
+				return true
+			})
+			if checked[ta] {
+				c.OK(key, c.P.Pos(ta.Pos()), "the kind of the decoded item is tested")
+			} else {
+				c.Fail(key, c.P.Pos(ta.Pos()), fmt.Sprintf("%s asserts the item %s returned to be %s with the single-valued form: bytes that hold an item of another kind (they come from the database, from a peer or from a JSON document) make it panic instead of returning an error", FuncKey(fd.Obj), dec, types.ExprString(ta.Type)))
+			}
+			return true
+		})
+	}
+	c.Floor("stack item decoder calls whose result is kept", ncall, 10)
+	if n == 0 {
+		c.Note("no type assertion on a decoded stack item")
+	}
+}
